@@ -4,6 +4,7 @@ import (
 	"crypto/sha256"
 	"encoding/binary"
 	"encoding/hex"
+	"fmt"
 )
 
 // Generators of cases. Every choice comes from the Rng passed in.
@@ -18,6 +19,7 @@ type GenParams struct {
 	Queries        int  // up to this many read-only queries after each step
 	DetMode        bool // C12: creation fixes ID and time; operations mostly deterministic/explicit
 	PartitionHeavy bool // theme: mostly partitions (primary / system / data / overlay juggling)
+	Scenario       int  // case counter: every fourth case is a directed history (scenarios.go)
 }
 
 var sizePoolSmall = []int{0, 0, 1, 2, 3, 7, 16, 31, 100, 127, 128, 129, 255, 383, 384, 385, 511, 512, 513, 600}
@@ -297,10 +299,19 @@ func GenSelector(r *Rng, v *imgView) Selector {
 	case 4:
 		return Selector{Kind: SNoGroup}
 	case 5:
+		if r.Chance(1, 4) { // values no stored group can have: nothing matches
+			return Selector{Kind: SGroup, N: int64(Pick(r, []uint32{0xf0000000, 0x10000001, 0xf0000001, 0xffffffff, 0x10000000}))}
+		}
 		return Selector{Kind: SGroup, N: int64(Pick(r, []uint32{1, 2, 3, 5, 0x0fffffff, 0}))}
 	case 6:
+		if r.Chance(1, 5) {
+			return Selector{Kind: SLinkedID, N: int64(Pick(r, []uint32{0xf0000001, 0x10000001, 0xffffffff}))}
+		}
 		return Selector{Kind: SLinkedID, N: int64(v.someID(r))}
 	case 7:
+		if r.Chance(1, 5) {
+			return Selector{Kind: SLinkedGroup, N: int64(Pick(r, []uint32{0xf0000001, 0x10000001, 0xf0000000}))}
+		}
 		return Selector{Kind: SLinkedGroup, N: int64(Pick(r, []uint32{1, 2, 3, 0}))}
 	case 8:
 		return Selector{Kind: SPartType, N: int64(r.Intn(6))}
@@ -392,6 +403,25 @@ func GenHistory(r *Rng, id int, p GenParams) Case {
 			j := r.Intn(i + 1)
 			co.Order[i], co.Order[j] = co.Order[j], co.Order[i]
 		}
+	}
+	if p.Scenario%4 == 3 {
+		k := (p.Scenario / 4) % NScenarios
+		dis, ops, det := scenario(k, r, p)
+		if det {
+			co.IDKind, co.TimeKind = 2, 2
+		}
+		co.CapSet, co.Cap = true, int64(len(dis)+2+r.Intn(3))
+		co.DIs = dis
+		v := &imgView{cap: int(co.Cap)}
+		for i, d := range dis {
+			v.note(d, uint32(i+1))
+		}
+		c.InitQueries = append(GenQueries(r, v, p.Queries), probeQueries(r)...)
+		for _, op := range ops {
+			c.Steps = append(c.Steps, Step{Op: op, Queries: append(GenQueries(r, v, p.Queries), probeQueries(r)...)})
+		}
+		c.Tags = append(c.Tags, fmt.Sprintf("scenario-%d", k))
+		return c
 	}
 	v := &imgView{cap: capacity}
 	nInit := 0
